@@ -30,7 +30,7 @@ import os, re
 from vlib import Case, Stream, BUILD, model_cmd
 
 ID = "C20"
-LEAN_MODULES = ["HgVerif.Props.C20"]
+LEAN_MODULES = ["HgVerif.Props.C20", "HgVerif.Props.C20Recover"]
 THEOREMS = [
     "HgVerif.Delta.apply_capture", "HgVerif.Delta.capture_apply",
     "HgVerif.Delta.tick_hasEffect", "HgVerif.Delta.tick_observable", "HgVerif.Delta.apply_noEffect",
@@ -38,17 +38,29 @@ THEOREMS = [
     "HgVerif.Delta.replay_record_id", "HgVerif.Delta.replay_values", "HgVerif.Delta.gap_admitted",
     "HgVerif.Delta.emptyTick_not_replayed", "HgVerif.Delta.bundleDefault_validates",
     "HgVerif.Delta.ghostKey_not_recorded", "HgVerif.Delta.apply_capture_unrestricted_false",
+    # recover / as-of stream (Props/C20Recover.lean)
+    "HgVerif.Delta.recover_eq_value_at", "HgVerif.Delta.resolve_eq_value_at", "HgVerif.Delta.asof_eq_live",
+    "HgVerif.Delta.recover_eq_spec", "HgVerif.Delta.record_times_increasing", "HgVerif.Delta.recover_prefix_monotone",
+    "HgVerif.Delta.recover_all", "HgVerif.Delta.recordSparse_graph", "HgVerif.Delta.asof_graph_eq_live",
+    "HgVerif.Delta.replaySparse_id", "HgVerif.Delta.apply_clear",
+    "HgVerif.Delta.oneView_readd_wrong", "HgVerif.Delta.oneView_window_throws", "HgVerif.Delta.oneView_unsound",
 ]
 CXX_TARGETS = ["hgv_replay", "hgv_recover"]
 RULE = ("generated schemas to depth 3 (4 in thorough) over TS/SIGNAL/TSW/TSS/TSD/TSL/TSB with Int and Str scalars, "
         "histories of 2-15 ticks with gaps; a case is non-trivial when the schema is nested (depth >= 2) and the "
         "history contains a key/element removal, a re-add of a removed key, or a child-only tick; distinct by sha1 "
-        "of the case text")
+        "of the case text.  Recover / as-of stream: replayable histories biased to dictionaries of collections over 2-4 "
+        "keys and to windows, the recording read as of EVERY cycle 0..last+2; non-trivial when a key with a collection "
+        "child is added again in a cycle after its removal, when a window has several entries, or when folding the "
+        "entries through one view would give another state or throw")
 TRUSTED = ["ankerl::unordered_dense / KeySlotStore modelled as key-indexed vectors over a finite key universe "
            "(per-key effects of apply_delta are independent, iteration order immaterial)",
            "the value layer (Value copy/equals, builders) and the graph engine's scheduling of the two nodes "
            "(C02/C18) are exercised, not modelled"]
-ASSUMPTIONS = ["dense 'testing' backend, simulation mode, start time MIN_ST",
+ASSUMPTIONS = ["dense 'testing' backend (streams replayable / any-delta) and sparse ':memory:' backend (stream recover-asof), "
+               "simulation mode, start time MIN_ST",
+               "recover stream: recordings written by the record node in one run (strictly increasing entry times, "
+               "record_times_increasing); the resolver is asked through its in-memory dispatch (backend 'memory')",
                "no invalidation ticks and no REF / dynamic TSL / duration TSW shapes (capture_delta rejects or skips them)",
                "theorems apply_capture / replay_record_id carry the hypothesis Replayable (no empty tick on a valid "
                "TSS/TSD, non-ticking TSS/TSD bundle fields already valid, every dictionary child valid); the two "
@@ -619,10 +631,11 @@ def streams(rng, tier, seed):
     maxt = 12 if quick else 15
     exe = [os.path.join(BUILD, "hgv_replay")]
     cdir = os.path.join(os.path.dirname(BUILD), "corpus", "C20")
-    corpus = []
+    corpus, rcorpus = [], []
     if os.path.isdir(cdir):
         for f in sorted(os.listdir(cdir)):
-            corpus.append(Case([l.rstrip("\n") for l in open(os.path.join(cdir, f)) if l.strip()]))
+            cs = Case([l.rstrip("\n") for l in open(os.path.join(cdir, f)) if l.strip()])
+            (rcorpus if "recover" in f else corpus).append(cs)        # *recover*: ops of hgv_recover
     wf = [gen_case(rng, i, 'wf', maxd, maxt) for i in range(n_wf)]
     out = [Stream("replayable", exe, model_cmd("C20"), corpus + wf)]
     if os.environ.get("C20_FINDINGS", "on") != "off":
@@ -639,9 +652,15 @@ def streams(rng, tier, seed):
     n_rec = 260 if quick else 8000
     rexe = [os.path.join(BUILD, "hgv_recover")]
     rtail = ["record", "asof", "onetime", "replay", "values"]
-    rcases = [Case(["case %d" % (9100 + i)] + list(b) + rtail, {"kind": "wf"}) for i, b in enumerate(RECOVER_DIRECTED)]
+    rcases = rcorpus + [Case(["case %d" % (9100 + i)] + list(b) + rtail, {"kind": "wf"})
+                        for i, b in enumerate(RECOVER_DIRECTED)]
     rcases += [gen_recover_case(rng, i, maxd, maxt) for i in range(n_rec)]
     out.append(Stream("recover-asof", rexe, model_cmd("C20"), rcases))
+    # the same read over ARBITRARY deltas: correspondence only (model = implementation also where the history runs
+    # into the asymmetries A/B/C; the recover monitor makes no claim about histories that are not replayable)
+    n_any = 80 if quick else 2500
+    acases = [Case(["case %d" % i] + gen_case(rng, 0, 'odd', maxd, maxt).lines[1:-4] + rtail) for i in range(n_any)]
+    out.append(Stream("recover-any-delta", rexe, model_cmd("C20"), acases))
     return out
 
 
@@ -1139,16 +1158,19 @@ def nontrivial(stream, case, out):
 
 
 TECHNIQUE = ("Lean 4 proof (structural induction on the schema: apply(capture) round trip with marks; induction over "
-             "the tick history for the replay->record graph with the dense buffer) with differential correspondence "
-             "against real replay->record graphs built from /repo through the erased operator path")
+             "the tick history for the replay->record graph with the dense buffer and for the as-of fold of the sparse "
+             "recording) with differential correspondence against real replay->record graphs built from /repo through "
+             "the erased operator path and against record_replay::recorded_seed_resolver asked at every cycle")
 LEVEL_TEXT = ("Kernel-checked for every schema (TS, SIGNAL, TSW, TSS, TSD, fixed TSL, TSB, any nesting) and every "
               "replayable tick: applying the captured delta to the pre-tick state gives the post-tick state including "
               "its per-position marks, capturing from the copy gives the same delta, and for every tick history "
               "(gaps, removals, child-only ticks, empty validating deltas) the graph replay->record over the recording "
               "reproduces the recording (same buffer length, cycles, deltas) and the same per-cycle states. The two "
               "situations excluded by 'replayable' are proved to break the round trip in the model and are reproduced "
-              "on the implementation.")
+              "on the implementation. Recover read: for every schema, every such history and every cycle c the recording "
+              "folded as of c (each entry through a view at its own time, as recorded_seed_resolver does) is the value the "
+              "series held at c and equals what a live probe last saw; folding through one view is proved wrong by witness.")
 LEVEL_NOTE = ("Trusted: Lean kernel; axioms propext/Classical.choice/Quot.sound; the hand-written model of ts_delta.cpp, "
               "the slot stores' delta marks and the two operators; the correspondence harness (real graphs, quick tier "
-              "about 600 histories). Not covered: REF, dynamic TSL, duration windows, invalidation ticks, the sparse "
-              "':memory:' backend.")
+              "about 600 histories + about 270 sparse recordings read as of every cycle). Not covered: REF, dynamic TSL, "
+              "duration windows, invalidation ticks, recordings appended across runs, extension seed resolvers.")
